@@ -86,3 +86,6 @@ pub fn verif_select(n: usize) -> (r: usize) ensures r < n { unimplemented!() }
 /// ghost transcript of one Handler::run: what has been written so far, how many requests were answered, and
 /// whether the loop ended because the client closed the stream (clean_end) / the shutdown signal had been received (stopped)
 pub struct RunGhost { pub ghost out: Seq<u8>, pub ghost served: nat, pub ghost clean_end: bool, pub ghost stopped: bool }
+
+/// ghost transcript for the arbitrary-input contract of Handler::run (C10): the commands executed so far
+pub struct RunGhost10 { pub ghost cmds: Seq<command::SCmd>, pub ghost out: Seq<u8> }
